@@ -77,6 +77,11 @@ func (s *storage) delete(br blob.Ref) error {
 		return err
 	}
 
+	if meta.size == 0 {
+		// nothing to zero; punching a zero-length hole is an error (EINVAL)
+		return nil
+	}
+
 	// punch hole, if possible
 	if punchHole != nil {
 		err = punchHole(f, meta.offset, int64(meta.size))
